@@ -3,7 +3,7 @@
 # bin/seedingest.sh C02 r2     -> copies /tmp/wt/C02r2-out/{a,b} to seeded/C02c, seeded/C02d (second round)
 ID=$1
 R=$2
-for k in a b c; do
+for k in a b c d; do
   src=/tmp/wt/$ID$R-out/$k
   [ -f $src/patch.diff ] || continue
   t=$k
@@ -11,7 +11,7 @@ for k in a b c; do
   if [ "$R" = "r3" ]; then t=$(echo $k | tr abc fgh); fi
   if [ "$R" = "r4" ]; then t=$(echo $k | tr abc ijk); fi
   if [ "$R" = "r5" ]; then t=$(echo $k | tr abc lmn); fi
-  if [ "$R" = "r6" ]; then t=$(echo $k | tr abc opq); fi
+  if [ "$R" = "r6" ]; then t=$(echo $k | tr abcd opqr); fi
   dst=/verif/seeded/$ID$t
   mkdir -p $dst
   cp -r $src/. $dst/
